@@ -185,8 +185,8 @@ func TableLayout(prefix string) Layout {
 }
 
 func (l Layout) Node(n string) string { return l.Base + "node/" + n }
-func (l Layout) Current() string       { return l.Base + "root/current/" }
-func (l Layout) Merged() string        { return l.Base + "root/merged/" }
+func (l Layout) Current() string      { return l.Base + "root/current/" }
+func (l Layout) Merged() string       { return l.Base + "root/merged/" }
 
 // WalkNodes decodes the tree under link (independent of mast).
 func WalkNodes(objs map[string][]byte, l Layout, link *string, bf uint) (*TreeDump, []string) {
